@@ -16,6 +16,12 @@ R3  code->spec: Modularize on random graphs up to ~60 nodes is recorded level by
     and for the query methods of every level / layer of the hierarchies (ReducedQueryTrace.tla).
 R2  ProfileStep.tla scripts step-function score functions for community.Profile and states the
     intervals that must come back.
+R2  MultiplexGrid.tla: QMultiplex on 2- and 3-layer graphs over the documented ARGUMENT grid (weights nil /
+    ones / zeros in first, middle, last position / all zero / negative; resolutions nil / one global value /
+    per layer), every partition; the same arguments go to ModularizeMultiplex (both values of `all`), whose
+    top level must be a partition the record lists as not worse than the singletons.
+R2  ZeroDist.tla: the distance-based measures on graphs with edge weights {0,1,2} (distinct nodes at
+    distance 0), for DijkstraAllPaths, FloydWarshall and JohnsonAllPaths.
 """
 import os
 import shutil
@@ -62,6 +68,40 @@ QMCFG = [
     ("und-w5", 5, "FALSE", "TRUE", 0, False),
 ]
 
+# QMultiplex over the documented ARGUMENT grid (MultiplexGrid.tla): weights nil / ones / zero in first, middle,
+# last position / two zeros / all zero / negative first, last; resolutions nil / one global value in
+# {1/2,1,2,3} / per layer; every partition.  name, N, DEPTH, DIRECTED, WEIGHTED, FULL, FULLGRID, SAMPLE, quick?
+# FULL: every tuple of layers; otherwise (SAMPLE = 0) layer 1 = every graph, the other layers salted
+QMGRID = [
+    ("und-w4-d3s", 4, 3, "FALSE", "TRUE", "FALSE", "FALSE", 30, True),
+    ("dir-u4-d3s", 4, 3, "TRUE", "FALSE", "FALSE", "FALSE", 30, True),
+    ("dir-w4-d2s", 4, 2, "TRUE", "TRUE", "FALSE", "FALSE", 48, True),
+    ("und-u4-d2", 4, 2, "FALSE", "FALSE", "FALSE", "FALSE", 0, True),
+    ("dir-w3-d3", 3, 3, "TRUE", "TRUE", "FALSE", "FALSE", 0, True),
+    ("dir-u3-d2", 3, 2, "TRUE", "FALSE", "FALSE", "FALSE", 0, True),
+    ("und-u3-d2-full", 3, 2, "FALSE", "FALSE", "TRUE", "FALSE", 0, True),
+    ("und-w3-d3s", 3, 3, "FALSE", "TRUE", "FALSE", "FALSE", 64, True),
+    ("und-w3-d3-full", 3, 3, "FALSE", "TRUE", "TRUE", "FALSE", 0, False),
+    ("und-w4-d3", 4, 3, "FALSE", "TRUE", "FALSE", "FALSE", 0, False),
+    ("und-u3-d3-full", 3, 3, "FALSE", "FALSE", "TRUE", "FALSE", 0, False),
+    ("dir-w3-d2-allw", 3, 2, "TRUE", "TRUE", "FALSE", "TRUE", 0, False),
+    ("und-w3-d3-allw", 3, 3, "FALSE", "TRUE", "FALSE", "TRUE", 60, False),
+    ("und-w4-d3-allw", 4, 3, "FALSE", "TRUE", "FALSE", "TRUE", 30, False),
+    ("dir-w4-d3s", 4, 3, "TRUE", "TRUE", "FALSE", "FALSE", 300, False),
+    ("dir-u4-d2s", 4, 2, "TRUE", "FALSE", "FALSE", "FALSE", 400, False),
+]
+
+# distance-based measures on graphs with edge weights {0,1,2} (ZeroDist.tla): name, N, DIRECTED, SAMPLE, NSHARDS, quick?
+ZDIST = [
+    ("und-4", 4, "FALSE", 0, 4, True),        # every graph: 4^6 = 4096
+    ("dir-3", 3, "TRUE", 0, 4, True),         # every graph: 4^6 = 4096
+    ("dir-4s", 4, "TRUE", 600, 1, True),
+    ("und-3", 3, "FALSE", 0, 1, True),
+    ("dir-4s", 4, "TRUE", 6000, 6, False),
+    ("und-5s", 5, "FALSE", 1200, 4, False),
+    ("dir-5s", 5, "TRUE", 600, 3, False),
+]
+
 
 def run(ctx):
     thorough = ctx.tier == "thorough"
@@ -87,6 +127,24 @@ def run(ctx):
         cases = ctx.gen("network/Multiplex.tla", "network/Multiplex.cfg", name="R1+R2 gen QMultiplex " + name,
                         subst=dict(N=n, DIRECTED=d, WEIGHTED=w, SALT=ctx.seed, SAMPLE=sample, EMIT="TRUE"))
         ctx.replay(hb, "community-qm", cases, name="R2 replay QMultiplex " + name)
+
+    def qmg_stage(name, n, depth, d, w, full, fullgrid, sample):
+        salt = 0 if (full == "TRUE" and w == "FALSE") else ctx.seed
+        cases = ctx.gen("network/MultiplexGrid.tla", "network/MultiplexGrid.cfg", name="R1+R2 gen QMultiplex argument grid " + name,
+                        subst=dict(N=n, DEPTH=depth, DIRECTED=d, WEIGHTED=w, FULL=full, FULLGRID=fullgrid, SALT=salt,
+                                   SAMPLE=sample, EMIT="TRUE"))
+        ctx.replay(hb, "community-qmg", cases, name="R2 replay QMultiplex argument grid " + name)
+
+    def zd_stage(name, n, d, sample, shard, nshards):
+        cases = ctx.gen("network/ZeroDist.tla", "network/ZeroDist.cfg",
+                        name="R1+R2 gen zero-weight distances %s %d/%d" % (name, shard + 1, nshards),
+                        subst=dict(N=n, DIRECTED=d, SALT=(ctx.seed if sample else 0), SAMPLE=sample, SHARD=shard,
+                                   NSHARDS=nshards, EMIT="TRUE"))
+        ctx.replay(hb, "network-zero", cases, name="R2 replay zero-weight distances %s %d/%d" % (name, shard + 1, nshards))
+
+    grid_stages = ([(lambda a=a: qmg_stage(*a[:8])) for a in QMGRID if a[8] or thorough] +
+                   [(lambda a=a, sh=sh: zd_stage(a[0], a[1], a[2], a[3], sh, a[4]))
+                    for a in ZDIST if a[5] or thorough for sh in range(a[4])])
 
     r2_stages = ([(lambda a=a: net_stage(*a[:5])) for a in NET if a[5] or thorough] +
                  [(lambda a=a: q_stage(*a[:5])) for a in QCFG if a[5] or thorough] +
@@ -148,7 +206,7 @@ def run(ctx):
                                       "MultiplexTrace", "ModularizeMultiplex(weights=nil)", "mlouvain-q",
                                       "ModularizeMultiplex:nil-weights"))
     # one pool: the two longest generator stages first, the short trace stages fill the gaps
-    ctx.parallel(r2_stages[:2] + stages + r2_stages[2:], width=4)
+    ctx.parallel(r2_stages[:2] + stages + r2_stages[2:] + grid_stages, width=4)
 
     ctx.assumptions += [
         "TLC/SANY and the CommunityModules (Json, Functions, FiniteSetsExt) are trusted",
@@ -167,6 +225,14 @@ def run(ctx):
         "2*tol*lam2/(lam-lam2) (emitted by the spec from the termination test) + 1e-12; unit norm within 1e-12",
         "DiffuseToEquilibrium: allowed deviation tol*(dmax/dmin)*(diam*vol)/(1-damp) emitted by the spec (Chung's gap "
         "bound); Diffuse conservation within 1e-9 relative, t=0 compared exactly",
+        "QMultiplex argument grid: a layer under a negative layer weight is built with the negated edge weights (the "
+        "record says which layers); Q_layer of an edgeless layer (0/0) is not compared whatever its layer weight; "
+        "ModularizeMultiplex on the grid: only termination without panic, Communities() of the top level being a partition, "
+        "and SUM_layer Q_layer(top) >= SUM_layer Q_layer(singletons) decided by TLC in exact rationals (asked only when "
+        "every layer has an edge) - the seeded source is PCG(seed*7919+line, argument lengths)",
+        "zero-weight distances: H(v) must be +Inf as soon as a distinct node is at distance 0 (a term 1/0 among non-negative "
+        "terms); C(v) = 1/F(v) with F(v) = 0 is left open (skipped and counted); shortest paths are simple paths "
+        "(\"Paths containing zero-weight cycles are not returned\")",
         "PageRank: allowed deviation from the exact stationary vector = d/(1-d)*n*tol (emitted by the spec from the "
         "contraction argument) + 1e-7 for the rounding of the iteration itself (random start vector scaled by 1/sum)",
     ]
@@ -177,7 +243,10 @@ def run(ctx):
              "non-trivial = the graph has at least one edge (Q: partition neither trivial nor singletons). "
              "R3: one trace = one Modularize / ModularizeMultiplex / Profile run (all levels / intervals) or one "
              "(level, layer) of a hierarchy with the answers of every query method; one Q case = one level of one run "
-             "or one interval of one profile. Profile step functions: one case = one Profile call.",
+             "or one interval of one profile. Profile step functions: one case = one Profile call. "
+             "QMultiplex argument grid: one case = one (multiplex, container, weights form, resolutions form, partition) "
+             "evaluation, non-trivial as for Q. Zero-weight distances: one case = one graph (all measures, three "
+             "shortest-path sources), non-trivial = some pair of distinct nodes is at distance 0.",
         exhaustive=True)
 
 
